@@ -4,11 +4,11 @@
 use std::collections::BTreeMap;
 
 use ec_core::{
-    distributions::conversion::IntoDistribution,
+    distributions::{collection::ConvertToCollectionGenerator, conversion::IntoDistribution},
     operator::{mutator::Mutator, recombinator::Recombinator},
 };
 use ec_linear::{
-    genome::{bitstring::Bitstring, vector::Vector},
+    genome::{bitstring::{Bitstring, BoolGenerator}, vector::Vector},
     mutator::{umad::Umad, with_one_over_length::WithOneOverLength, with_rate::WithRate},
     recombinator::uniform_xo::UniformXo,
 };
@@ -76,6 +76,23 @@ pub fn run(args: &[String]) -> i32 {
                     })));
                     targets.push(("bitstring_random_with_probability", Box::new(move |r| {
                         key(Bitstring::random_with_probability(len, rate, r).bits)
+                    })));
+                    targets.push(("bool_generator", Box::new(move |r| {
+                        let g = BoolGenerator::new(rate);
+                        key((0..len).map(|_| g.sample(r)).collect::<Vec<bool>>())
+                    })));
+                    // the configured probability is a public field: the probability applied is the one
+                    // configured NOW, also when it was changed after construction
+                    targets.push(("bool_generator_retuned", Box::new(move |r| {
+                        let mut g = BoolGenerator::new(if rate > 0.5 { 0.0 } else { 1.0 });
+                        g.true_probability = rate;
+                        key((0..len).map(|_| g.sample(r)).collect::<Vec<bool>>())
+                    })));
+                    targets.push(("bool_generator_retuned_collection", Box::new(move |r| {
+                        let mut g = BoolGenerator::new(if rate > 0.5 { 0.0 } else { 1.0 });
+                        g.true_probability = rate;
+                        let v: Vec<bool> = g.into_collection_generator(len).sample(r);
+                        key(v)
                     })));
                     if u(&row["D"]) == 2 {
                         targets.push(("uniform_xo_vec", Box::new(move |r| {
